@@ -142,16 +142,19 @@ MQubitSum   == Perm(8, LAMBDA i : LET a == (i \div 4) % 2 b == (i \div 2) % 2 c 
 MQubitCarry == Perm(16, LAMBDA i : LET a == (i \div 8) % 2 b == (i \div 4) % 2 c == (i \div 2) % 2 d == i % 2 IN
                     8*a + 4*b + 2*((b+c) % 2) + ((d + b*c + ((b+c)%2)*a) % 2))
 
+\* number of target wires of a record: its wires minus the control wires added by ctrl modifiers
+NCtrl(r) == LET S[i \in 0..Len(r.mods)] == IF i = 0 THEN 0 ELSE S[i-1] + (IF r.mods[i].t = "ctrl" THEN Len(r.mods[i].cv) ELSE 0) IN S[Len(r.mods)]
+NT(r) == Len(r.w) - NCtrl(r)
 GateBase(r) ==
   LET g == r.g  p == r.p IN
-  CASE g = "Identity" -> Ident(2^Len(r.w))
+  CASE g = "Identity" -> Ident(2^NT(r))
     [] g = "PauliX" -> MX [] g = "PauliY" -> MY [] g = "PauliZ" -> MZ
     [] g = "Hadamard" -> MH [] g = "S" -> MS [] g = "T" -> MT [] g = "SX" -> MSX
     [] g = "RX" -> MRX(p[1]) [] g = "RY" -> MRY(p[1]) [] g = "RZ" -> MRZ(p[1])
     [] g = "PhaseShift" -> MPhase(p[1]) [] g = "U1" -> MPhase(p[1])
     [] g = "Rot" -> MRot(p[1], p[2], p[3])
     [] g = "U2" -> MU2(p[1], p[2]) [] g = "U3" -> MU3(p[1], p[2], p[3])
-    [] g = "GlobalPhase" -> MGlobalPhase(p[1], Len(r.w))
+    [] g = "GlobalPhase" -> MGlobalPhase(p[1], NT(r))
     [] g = "CNOT" -> MCNOT [] g = "CY" -> MCY [] g = "CZ" -> MCZ [] g = "CH" -> MCH
     [] g = "SWAP" -> MSWAP [] g = "ISWAP" -> MISWAP [] g = "SISWAP" -> MSISWAP [] g = "SQISW" -> MSISWAP
     [] g = "ECR" -> MECR
@@ -168,12 +171,12 @@ GateBase(r) ==
     [] g = "SingleExcitationMinus" -> MSingleExcMinus(p[1])
     [] g = "FermionicSWAP" -> MFermionicSWAP(p[1])
     [] g = "Toffoli" -> MToffoli [] g = "CCZ" -> MCCZ [] g = "CSWAP" -> MCSWAP
-    [] g = "MultiRZ" -> MMultiRZ(p[1], Len(r.w))
+    [] g = "MultiRZ" -> MMultiRZ(p[1], NT(r))
     [] g = "PauliRot" -> MPauliRot(p[1], r.x)
     [] g = "DoubleExcitation" -> MDoubleExc(p[1])
     [] g = "DoubleExcitationPlus" -> MDoubleExcPlus(p[1])
     [] g = "DoubleExcitationMinus" -> MDoubleExcMinus(p[1])
-    [] g = "QFT" -> MQFT(Len(r.w))
+    [] g = "QFT" -> MQFT(NT(r))
     [] g = "MultiControlledX" -> MMCX(r.x)
     [] g = "QubitSum" -> MQubitSum [] g = "QubitCarry" -> MQubitCarry
     [] g = "PauliWord" -> PauliM(r.x)
